@@ -101,6 +101,7 @@ PROPS["C04"] = dict(
     technique="stateful property-based testing with an invariant audited after every storage operation against an independent Static-CT renderer",
     units=[
         sim("^TestVerifC04Storage$", 120, 1000, files=["sim*.go", "c04*.go"]),
+        sim("^TestVerifC04HugeIndex$", 40, 200, ts=4, files=["sim*.go", "c04*.go"]),
     ],
 )
 
